@@ -381,7 +381,7 @@ pub fn sweep(ctx: &Ctx, rep: &Report, v: &dyn Visitor, want_registers: bool) -> 
             let code = if df == 20 { ac13_q(35000) } else { id13(1, 2, 3, 4) };
             visit_frame(v, &c, "commb:exemplar", &df20_21(df, 0, 0, 0, code, &ex, addr));
             let step = p.commb_step;
-            par_ranges(ctx.threads, 256 / step as u64, 4, |lo, hi| {
+            par_ranges(ctx.threads, 256 / step as u64, 1, |lo, hi| {
                 for first in lo..hi {
                     for off in (8..=48).step_by(8) {
                         let mut mb = ex;
@@ -390,9 +390,9 @@ pub fn sweep(ctx: &Ctx, rep: &Report, v: &dyn Visitor, want_registers: bool) -> 
                             set_bits(&mut mb, off, 8, val);
                             visit_frame(v, &c, "commb:window8", &df20_21(df, 0, 0, 0, code, &mb, addr));
                         }
-                        // the other flight statuses (and a downlink request), on every other value
+                        // the other flight statuses (and a downlink request), on a coarser grid of values
                         for fs in 1..8u8 {
-                            for val in (0..256u64).step_by(step * 2) {
+                            for val in (0..256u64).step_by(if step == 1 { 2 } else { step * 4 }) {
                                 set_bits(&mut mb, off, 8, val);
                                 visit_frame(v, &c, "commb:window8:fs", &df20_21(df, fs, (fs as u64 * 5) as u8 & 31, 0, code, &mb, addr));
                             }
@@ -402,6 +402,7 @@ pub fn sweep(ctx: &Ctx, rep: &Report, v: &dyn Visitor, want_registers: bool) -> 
             });
         }
     }
+    rep.part("Comm-B replies: exemplars and windows under every flight status", c.frames.load(Ordering::Relaxed), serde_json::json!({"accepted": c.accepted.load(Ordering::Relaxed)}));
     // joint ADS-B domains that matter for ranges: velocity sign/magnitude pairs, headings, surface movement x track
     let vstep = if p.thorough { 1 } else { 16 * p.stride };
     for st in [1u8, 2] {
@@ -442,6 +443,7 @@ pub fn sweep(ctx: &Ctx, rep: &Report, v: &dyn Visitor, want_registers: bool) -> 
             }
         });
     }
+    rep.part("velocity component pairs and headings", c.frames.load(Ordering::Relaxed), serde_json::json!({"accepted": c.accepted.load(Ordering::Relaxed)}));
     let mut batch: Vec<(&'static str, Vec<u8>)> = Vec::new();
     // every vertical-rate code x sign x source; every GNSS-baro difference
     for vr in 0..512u16 {
@@ -599,10 +601,10 @@ pub fn mb45(x: u32) -> [u8; 7] {
 fn joint<F: Fn(u32, u32) -> [u8; 7] + Sync>(ctx: &Ctx, na: u32, nb: u32, step: u32, build: F, name: &str, v: &dyn Visitor, c: &Counts) {
     let step = step.max(1);
     // the same domain inside whole DF20 / DF21 replies under every flight status (the header is context for the
-    // register readers: alert / SPI / on-ground), on a grid four times coarser
-    let fstep = (step * 4).max(8);
+    // register readers: alert / SPI / on-ground), on a grid eight times coarser
+    let fstep = (step * 8).max(if ctx.thorough() && ctx.plain() { 8 } else { 64 });
     let group = format!("commb:joint:{name}");
-    par_ranges(ctx.threads, (na / fstep).max(1) as u64, 4, |lo, hi| {
+    par_ranges(ctx.threads, (na / fstep).max(1) as u64, 1, |lo, hi| {
         for a in lo..hi {
             let a = a as u32 * fstep;
             let mut bs: Vec<u32> = (0..nb).step_by(fstep as usize).collect();
@@ -611,7 +613,10 @@ fn joint<F: Fn(u32, u32) -> [u8; 7] + Sync>(ctx: &Ctx, na: u32, nb: u32, step: u
             bs.sort();
             bs.dedup();
             for b in bs {
-                for (x, y) in [(a, b), (b.min(na - 1), a.min(nb - 1))] {
+                for (k, (x, y)) in [(a, b), (b.min(na - 1), a.min(nb - 1))].into_iter().enumerate() {
+                    if k == 1 && nb == 1 {
+                        continue;
+                    }
                     let mb = build(x, y);
                     for fs in 0..8u8 {
                         visit_frame(v, c, &group, &df20_21(20, fs, 0, 0, if fs & 1 == 1 && fs < 4 { ac13_q(0) } else { ac13_q(35000) }, &mb, 0x4840d6));
